@@ -16,6 +16,7 @@ package push
 import (
 	"context"
 	"sync"
+	"sync/atomic"
 	"time"
 
 	"github.com/hprose/hprose-golang/v3/rpc/core"
@@ -26,6 +27,8 @@ type Broker struct {
 	*core.Service
 	messages      sync.Map           // map[string]map[string]messageCache
 	responders    cmap.ConcurrentMap // map[string]chan map[string][]Message
+	polls         sync.Map           // map[string]*uint64: polls seen per id
+	pollOf        sync.Map           // map[chan map[string][]Message]uint64: which poll waits on a responder
 	signals       cmap.ConcurrentMap // map[string]chan bool
 	Timeout       time.Duration
 	HeartBeat     time.Duration
@@ -86,12 +89,24 @@ func (b *Broker) send(ctx context.Context, id string, responder chan map[string]
 	if len(result) == 0 {
 		return false
 	}
+	poll, _ := b.pollOf.Load(responder)
 	responder <- result
-	go b.doHeartBeat(ctx, id)
+	go b.doHeartBeat(ctx, id, poll)
 	return true
 }
 
-func (b *Broker) doHeartBeat(ctx context.Context, id string) {
+// pollCount returns the counter of the polls received from id.
+func (b *Broker) pollCount(id string) *uint64 {
+	n, ok := b.polls.Load(id)
+	if !ok {
+		n, _ = b.polls.LoadOrStore(id, new(uint64))
+	}
+	return n.(*uint64)
+}
+
+// doHeartBeat runs after the poll numbered poll has been answered: the
+// subscriber must poll again within the heartbeat.
+func (b *Broker) doHeartBeat(ctx context.Context, id string, poll interface{}) {
 	if b.HeartBeat <= 0 {
 		return
 	}
@@ -102,9 +117,9 @@ func (b *Broker) doHeartBeat(ctx context.Context, id string) {
 		}
 		return newValue
 	})
-	if b.responders.Has(id) {
-		// this goroutine started late: the subscriber's next poll is already
-		// waiting (it found no signal to cancel yet), so it is not silent
+	if n, ok := poll.(uint64); ok && atomic.LoadUint64(b.pollCount(id)) != n {
+		// this goroutine started late: the subscriber's next poll has already
+		// arrived (and found no signal to cancel yet), so it is not silent
 		if signal, ok := b.signals.Pop(id); ok {
 			close(signal.(chan bool))
 		}
@@ -186,6 +201,9 @@ func (b *Broker) unsubscribe(ctx context.Context, topic string) bool {
 
 func (b *Broker) message(ctx context.Context) map[string][]Message {
 	id := b.ID(ctx)
+	// counted before the heartbeat signal is looked for: a heartbeat that
+	// registers later sees the new count and gives up (see doHeartBeat)
+	poll := atomic.AddUint64(b.pollCount(id), 1)
 	if responder, ok := b.responders.Pop(id); ok {
 		responder.(chan map[string][]Message) <- nil
 	}
@@ -193,6 +211,8 @@ func (b *Broker) message(ctx context.Context) map[string][]Message {
 		close(signal.(chan bool))
 	}
 	responder := make(chan map[string][]Message, 1)
+	b.pollOf.Store(responder, poll)
+	defer b.pollOf.Delete(responder)
 	if !b.send(ctx, id, responder) {
 		b.responders.Upsert(id, responder, func(exist bool, valueInMap interface{}, newValue interface{}) interface{} {
 			if exist {
@@ -200,11 +220,6 @@ func (b *Broker) message(ctx context.Context) map[string][]Message {
 			}
 			return newValue
 		})
-		// a heartbeat registered since the signal was looked for above belongs
-		// to the answer before this poll: the subscriber is here, cancel it
-		if signal, ok := b.signals.Pop(id); ok {
-			close(signal.(chan bool))
-		}
 		if b.Timeout > 0 {
 			for {
 				timeoutCtx, cancel := context.WithTimeout(ctx, b.Timeout)
@@ -216,7 +231,7 @@ func (b *Broker) message(ctx context.Context) map[string][]Message {
 					if ctx.Err() != nil || b.responders.RemoveCb(id, func(_ string, v interface{}, exists bool) bool {
 						return exists && v.(chan map[string][]Message) == responder
 					}) {
-						go b.doHeartBeat(context.Background(), id)
+						go b.doHeartBeat(context.Background(), id, poll)
 						return map[string][]Message{}
 					}
 				case result := <-responder:
